@@ -521,6 +521,28 @@ def cases(rng, tier, seed):
         c = make_uniform_case(sp)
         if c:
             out.append(c)
+    # --- extents beyond 2^53 ps with odd intervals (where binary64 cannot hold n*dt): the regime in which a
+    # count derived from a float quotient goes wrong even for exact integer inputs
+    corpus2 = [(300, 977781009731899), (1785, 760030558045565), (93874, 3374116864345)]
+    for j in range(120 * k):
+        if j < len(corpus2):
+            n, dt = corpus2[j]
+        else:
+            dt = rng.randrange(10**10, 10**15) | 1
+            lo, hi = 2**53 // dt + 1, min(10**5, LIM // 2 // dt)
+            if lo >= hi:
+                continue
+            n = rng.randrange(lo, hi)
+        u = rng.choice(UNITS)
+        t0 = rng.choice([None, ('T', u, rng.randint(-10**15, 10**15))])
+        if rng.random() < 0.5:
+            sp = {'axis': None, 'length': n, 'duration': None, 'rate': None, 'interval': ('T', rng.choice(UNITS), dt), 't0': t0, 'unit': u}
+            c = make_uniform_case(sp)
+        else:
+            sp = {'n': n, 'ndim': 1, 't0': t0, 'interval': ('T', rng.choice(UNITS), dt), 'rate': None, 'duration': None, 'unit': u}
+            c = make_series_case(sp)
+        if c:
+            out.append(c)
     # --- series
     for sp in [{'n': 100, 'ndim': 1, 't0': None, 'interval': ('f', 2.2), 'rate': None, 'duration': None, 'unit': 'm'},
                {'n': 10, 'ndim': 1, 't0': None, 'interval': None, 'rate': None, 'duration': ('i', 10), 'unit': 'default'},
@@ -626,7 +648,9 @@ def judge_axis(o, unit, t0_arg, t0_inherit, interval, rate_hz, inherit_dt, lengt
         P = Fr(10**12) / Fr(rate_hz)
         slack = Fr(1, 2) + P / 2**50
         v = (1.0 / rate_hz) * 1e12          # the binary64 number of picoseconds the code holds (hardware floats)
-        if dt == int(v) != round(v) and dt < 2**51:
+        # the same period carried through `/ float(c_f)` and the cast back to picoseconds (hardware floats)
+        dt_t, dt_r = round((float(int(v)) / float(f)) * float(f)), round((float(round(v)) / float(f)) * float(f))
+        if dt == dt_t != dt_r:
             return 'period-truncated', 'interval %d ps is the truncation of the computed period %r ps; whole picoseconds are the NEAREST ones (%d)' % (dt, v, round(v))
         if abs(dt - P) > slack:
             if dt < P and abs(dt + 1 - P) <= slack:
@@ -697,7 +721,7 @@ def check_case(c):
 
     def fail(sym, what):
         return Failure('%s/%s' % (c.clause, sym), '%s: %s  [op: %s] impl=%s' % (c.clause, what, c.line[:220], c.impl[:160]),
-                       {'kind': kind, 'clause': c.clause, 'meta': m}, case=c)
+                       {'kind': kind, 'clause': c.clause, 'meta': m, 'key': '%s/%s' % (c.clause, sym)}, case=c)
     if kind == 'uniform':
         sp = m['spec']
         pat = pattern_of(sp)
@@ -820,6 +844,7 @@ def twin_checks(rng, tier, cases):
                 sym = 'period-truncated' if b['dt'] == a['dt'] - 1 else 'differs'
                 if abs(b['dt'] - a['dt']) <= tol and b['t0'] == a['t0'] and (a['n'] != sp['length'] or b['n'] != sp['length']):
                     sym = 'count-not-length'
+                rp = dict(rp, key='same-sampling/%s/%s' % (how, sym))
                 fails.append(Failure('same-sampling/%s/%s' % (how, sym),
                                      'interval %r %s gives (t0,dt,n)=%s but the reciprocal rate %r Hz gives %s' % (
                                          x, unit, (a['t0'], a['dt'], a['n']), hz if how == 'interval-vs-rate' else a['rate'], (b['t0'], b['dt'], b['n'])), rp))
@@ -861,7 +886,7 @@ def replay(d):
         sp = _fix(d['spec'])
         c = make_uniform_case(sp)
         fs, _ = twin_checks(common.make_rng(PID, 0, 'replay'), 'quick', [c])
-        fs = [f for f in fs if f.replay['how'] == d['how']]
+        fs = [f for f in fs if f.replay['how'] == d['how'] and f.key == d.get('key', f.key)]
         return fs[0] if fs else None
     if kind == 'uniform':
         c = make_uniform_case(m['spec'])
@@ -877,4 +902,6 @@ def replay(d):
         c = Case('C02 freq', impl, d['clause'], meta=m)
     else:
         return None
-    return check_case(c) if c else None
+    f = check_case(c) if c else None
+    # the replay is about the recorded symptom; another (recorded) finding on the same input is not it
+    return f if (f and f.key == d.get('key', f.key)) else None
